@@ -232,6 +232,32 @@ def rule_i4(F):
     return r
 
 
+def rule_i6(F):
+    """Obligation behind the reviewed `get_scope_of(..).unwrap()` sites: the scope and the identifier of each lookup
+    belong to the same registered item (so the lookup cannot fail after the earlier passes)."""
+    r = RuleResult("C18.I6", "scope lookups during registration use the scope in which the looked-up item was declared", floor=5)
+    for fn in ("runtime::Rt::declare_types", "runtime::Rt::declare_functions", "runtime::Rt::declare_constants"):
+        b = F.body(fn)
+        if b is None or not b.mir:
+            r.missing(fn)
+            continue
+        defs = mir.Defs(b)
+        n = 0
+        for bi, t in mir.calls(b):
+            if not mir.callee(t).endswith("::get_scope_of") or len(t["args"]) < 3:
+                continue
+            n += 1
+            sk = mir.origin_key(b, defs, t["args"][1][1]) if mir.is_place_op(t["args"][1]) else "?"
+            ik = mir.origin_key(b, defs, t["args"][2][1]) if mir.is_place_op(t["args"][2]) else "?"
+            r.inst("%s lookup #%d" % (fn.rsplit("::", 1)[-1], n), {"fn": fn, "scope_from": sk, "ident_from": ik})
+            module_case = sk == "arg2" and ik.endswith(".ident") and ".name." not in ik
+            type_case = sk.endswith(".name.scope") and ik.endswith(".name.ident") and sk[: -len(".scope")] == ik[: -len(".ident")]
+            if not (module_case or type_case):
+                r.bad(fn, "lookup #%d" % n, relfile(b.file), t["line"],
+                      "get_scope_of(%s, %s): the scope and the identifier do not belong to the same item (a module is looked up in the scope being walked, a type in the scope where it was registered): the lookup fails - and the following unwrap panics - for an impl block or module that is not next to its type" % (sk, ik))
+    return r
+
+
 def rule_i5(F):
     r = RuleResult("C18.I5", "every TypeChecker::declare_runtime_* result becomes a RegistrationError and is propagated", floor=6)
     n = 0
@@ -283,4 +309,4 @@ def rule_i5(F):
 
 def rules(ctx):
     F = ctx["F"]
-    return [rule_i1(F), rule_i2(F), rule_i3(F), rule_i4(F), rule_i5(F)]
+    return [rule_i1(F), rule_i2(F), rule_i3(F), rule_i4(F), rule_i5(F), rule_i6(F)]
